@@ -544,7 +544,7 @@ func main() {
 			"executions_not_replayed_because_the_interpreter_found_a_safety_violation (C01)":                            s.notReplayed.Load(),
 			"executions_whose_reader_position_is_not_compared (suspended inside a partially available multi-byte read)": s.maskedRI.Load(),
 			"interpreter_executions_that_hit_the_step_limit (not replayed)":                                             s.hung.Load(),
-			"executions_with_an_out_of_domain_argument (refined bound -/+ 1, type min / max, -1, NULL io)": s.badArgExecs.Load(),
+			"executions_with_an_out_of_domain_argument (refined bound -/+ 1, type min / max, -1, NULL io)":              s.badArgExecs.Load(),
 			"executions_ending_in_a_suspension":                                                                         s.suspendedExec.Load(),
 			"programs_with_capped_exploration":                                                                          s.cappedProgs.Load(),
 			"programs_whose_signature_the_driver_cannot_call":                                                           s.unsupported.Load(),
@@ -564,6 +564,7 @@ func main() {
 	}, []string{
 		"E1 grammars only (no SIMD, pixel or token types, slices of u8 only); the iterate family is not built",
 		"the reference interpreter implements the documented ideal-integer semantics (cross-checked against ConstValue() by C01); executions on which it finds a safety violation are C01's and are not replayed (the C behaviour is undefined there)",
+		"public calls are also made with ONE argument outside its declared domain (refined bound -1 / +1, the base type's minimum and maximum, -1, a NULL io_buffer), first thing from the first 8 receiver states of every program; the expected outcome is the documented argument check of generated public methods (internal/cdrive CallEnveloped: the call is refused with \"#base: bad argument\" or the zero value, an impure receiver is disabled, nothing else changes; a disabled receiver refuses first); the receiver's DISABLED flag is part of every trace record; a driver death inside such a call is a violation (signature argcheck|type|bound)",
 		"a history is replayed on the C side by memcpy-restoring the receiver state its prefix produced (Wuffs structs are plain data)",
 		"not compared: bytes beyond wi of a writer, struct-typed fields, local variables; sanitizer reports are counted, not reported (C01), unless the traces differ as well",
 		"quick compiles with gcc -O1 + ASan + UBSan (and -O2 plain for batches with a sanitizer report); thorough adds gcc -O2 and clang -O2 for every batch",
